@@ -1022,6 +1022,46 @@ func init() {
 		}
 	}
 
+	// S-stale-sync-during-commit: the follower has committed height 1 and is inside a slow commit callback of height 2
+	// when a STALE sync (block 1, below the height being decided) is accepted by the main loop and queued for the worker.
+	// When the callback returns, height 3 must start as usual: the stale sync changes nothing (C14), in particular it must
+	// not swallow the round that follows the commit.
+	registerBoth("S-stale-sync-during-commit", []string{"C14", "C13"}, 1, 3, 4, func(x *X, cancel bool) {
+		n := newNode(x, 1)
+		hold := make(chan struct{})
+		n.HoldCommit[2] = hold
+		n.Boot()
+		feed(n, n.peerMsgs(1, "B1"))
+		feed(n, n.peerMsgs(2, "B2")) // the worker is now held inside the commit callback of height 2
+		s := x.S
+		if len(n.Commits) != 1 || uint64(n.M.State().Height()) != 2 {
+			x.Bad("HARNESS", "assumption", "prefix did not reach the commit callback of height 2: commits=%v events=%v", n.Commits, tail(n.Events, 8))
+		}
+		synced := false
+		s.Thread("stale-sync", func() {
+			n.M.UpdateState(n.Ctx, kit.NewBlock(1, "B1"), n.Proofs[1])
+			synced = true
+		})
+		s.Thread("release", func() {
+			vs.Closed(hold)
+			close(hold)
+		})
+		addCancel(n, cancel)
+		if !s.Run(20000) {
+			x.Bad("C16", "livelock", "step horizon reached")
+		}
+		if !cancel {
+			if !synced {
+				x.Bad("C14", "updatestate-blocked-or-failed", "the stale UpdateState did not return; blocked=%v", s.Blocked())
+			}
+			if h := uint64(n.M.State().Height()); h != 3 || len(n.Commits) != 2 {
+				x.Bad("C14", "stale-sync-changed-state", "a sync below the height being decided arrived during the commit of height 2: the node ends at height %d with commits %v instead of going on to height 3 (events %v)", h, n.Commits, tail(n.Events, 8))
+			}
+			checkSyncRounds(x, n)
+		}
+		finish(x, n, nil, "")
+	})
+
 	// S-state: the State object alone. One writer (the worker's role: view change, then next height), one reader
 	// taking two (height, view) snapshots. Every snapshot must be a state that existed, and snapshots never go back.
 	register(&Scenario{Name: "S-state", Props: []string{"C13"}, MaxFires: 0, Horizon: 2000, Body: func(x *X) {
